@@ -4,7 +4,7 @@ from __future__ import annotations
 
 from xknx.core.telegram_queue import TelegramQueue
 from xknx.telegram import Telegram, TelegramDirection
-from xknx.telegram.address import GroupAddress, GroupAddressType, InternalGroupAddress
+from xknx.telegram.address import GroupAddress, GroupAddressType, IndividualAddress, InternalGroupAddress
 from xknx.telegram.address_filter import AddressFilter
 from xknx.telegram.apci import GroupValueRead
 
@@ -24,7 +24,10 @@ LEVEL_NOTE = (
     "Trusted: CPython; the reference works on the generated structure, not on the text, and uses neither fnmatch nor xknx code. "
     "Judged: match result for in-grammar patterns in the matching notation (GroupAddress objects, str and int forms), exceptions for "
     "in-grammar patterns, agreement of twin filters / evaluation orders, cross-kind (group filter vs internal address and vice versa) "
-    "never matches, Callback.is_within_filter == any(filter matches). Not judged (recorded): patterns outside the grammar (empty values, "
+    "never matches; TelegramQueue.Callback.is_within_filter, evaluated statefully on one Callback object over sequences of group-, individual- and "
+    "internal-addressed telegrams with colliding raw values (same raw as IA and GA, both orders), repeats and notation switches (twin objects, "
+    "forward and reversed): every verdict equals the reference (pure function of filters / address list, destination, notation) and the verdict "
+    "of a brand-new Callback asked the same question. Not judged (recorded): patterns outside the grammar (empty values, "
     "bare '-', Unicode digits, blanks, 4 levels, [..] sets in globs, glob prefixes other than the documented 'i-'), notation/level mismatches, match(0) / match('0/0/0') refusing the "
     "broadcast address."
 )
@@ -394,28 +397,167 @@ def check_group_pattern(ctx, struct, text: str, addresses: list[int], index: int
     return flt, tables
 
 
-def check_callback(ctx, entries, rng):
-    """TelegramQueue.Callback.is_within_filter == any(filter matches), for filters of one level count."""
-    nlev = len(entries[0][0])
-    GroupAddress.address_format = NOTATION[nlev]
-    filters = [e[2] for e in entries]
-    callback = TelegramQueue.Callback(lambda t: None, address_filters=filters)
-    for _ in range(40):
-        raw = rng.randrange(65536)
-        exp = any(ref_match(e[3], raw, nlev) for e in entries)
-        telegram = Telegram(destination_address=_ga(raw), direction=TelegramDirection.INCOMING, payload=GroupValueRead())
+# -- Callback.is_within_filter: stateful and typed ---------------------------------------------------------------
+def _dest(kind: str, value):
+    """Fresh destination object for an event."""
+    if kind == "GA":
+        return GroupAddress(value)
+    if kind == "IA":
+        return IndividualAddress(value)
+    return InternalGroupAddress("i-" + value)
+
+
+def _make_callback(texts, listed, match_outgoing):
+    """Brand-new Callback with brand-new AddressFilter objects built from the texts."""
+    filters = [AddressFilter(t) for t in texts]
+    return TelegramQueue.Callback(lambda t: None, address_filters=filters,
+                                  group_addresses=[_dest(k, v) for k, v in listed], match_for_outgoing_telegrams=match_outgoing)
+
+
+def _ask(callback, kind, value, outgoing):
+    telegram = Telegram(destination_address=_dest(kind, value), payload=GroupValueRead(),
+                        direction=TelegramDirection.OUTGOING if outgoing else TelegramDirection.INCOMING)
+    try:
+        return callback.is_within_filter(telegram)
+    except BaseException as exc:  # noqa: BLE001
+        return exc
+
+
+def ref_callback(tables_list, globs, listed, nlev, kind, value, event_nlev):
+    """Pure function of (filters / address list, destination, notation). None = not defined by the statement (notation mismatch)."""
+    if kind == "IA":
+        return False            # a filter pattern / group address list denotes group and internal addresses only
+    if kind == "GA" and event_nlev != nlev:
+        return None             # filters of another level count are asked first: outside the judged grammar/notation pairing
+    if (kind, value) in listed:
+        return True
+    if kind == "IGA":
+        return any(ref_glob(g, value) for g in globs)
+    return any(ref_match(tables, value, nlev) for tables in tables_list)
+
+
+def _history_detail(history, kind, value, event_nlev):
+    """What in the earlier evaluations of this Callback object could explain a history dependence (for the mechanism string)."""
+    same_raw_other_type = [h for h in history if h[1] == value and h[0] != kind and kind in ("GA", "IA") and h[0] in ("GA", "IA")]
+    if same_raw_other_type:
+        return "same-raw-seen-first-as-" + ("individual-address" if same_raw_other_type[0][0] == "IA" else "group-address")
+    same = [h for h in history if h[0] == kind and h[1] == value]
+    if any(h[2] != event_nlev for h in same):
+        return "same-destination-seen-under-other-notation"
+    if same:
+        return "same-destination-repeated"
+    return "no-related-earlier-telegram"
+
+
+def callback_events(rng, entries, globs, listed, nlev):
+    """Sequence mixing group-, individual- and internal-addressed destinations with colliding raw values, repeats, notation switches."""
+    raws = set()
+    for struct, _text, _f, _t in entries:
+        raws.update(rng.sample(boundary_addresses(rng, struct, nlev, 24), 4))
+    raws.update(v for k, v in listed if k == "GA")
+    raws.update((0x0901, rng.randrange(65536)))
+    blocks = []
+    for i, raw in enumerate(sorted(raws)):
+        first, second = ("IA", "GA") if (i + rng.randrange(2)) % 2 else ("GA", "IA")
+        block = [(first, raw), (second, raw), (second, raw), (first, raw)]
+        if rng.random() < 0.5:
+            block.append(("GA", raw))
+        blocks.append(block)
+    names = [instantiate(rng, g) for g in globs] + ["zz", "a"]
+    names += [v for k, v in listed if k == "IGA"]
+    blocks.append([("IGA", _clean_name(n) or "q") for n in names for _ in range(2)])
+    # interleave the blocks, keeping the order inside each block
+    events = []
+    while blocks:
+        b = rng.choice(blocks)
+        events.append(b.pop(0))
+        if not b:
+            blocks.remove(b)
+    out = []
+    for kind, value in events:
+        r = rng.random()
+        event_nlev = nlev if r < 0.7 else rng.choice((1, 2, 3))
+        out.append((kind, value, event_nlev, kind == "IA" and rng.random() < 0.5))
+    return out
+
+
+def run_callback_sequence(ctx, texts, tables_list, globs, listed, nlev, events, order_name):
+    """Evaluate `events` on ONE Callback object; each verdict must equal the reference and a memoryless fresh evaluation."""
+    callback = _make_callback(texts, listed, True)
+    history = []
+    for index, (kind, value, event_nlev, outgoing) in enumerate(events):
+        GroupAddress.address_format = NOTATION[event_nlev]
         ctx.ev()
-        try:
-            got = callback.is_within_filter(telegram)
-        except BaseException as exc:  # noqa: BLE001
-            got = exc
-        if got is exp:
+        got = _ask(callback, kind, value, outgoing)
+        fresh = _ask(_make_callback(texts, listed, True), kind, value, outgoing)   # same question, no history
+        exp = ref_callback(tables_list, globs, listed, nlev, kind, value, event_nlev)
+        ctx.count("callback_evaluations")
+        ctx.count("callback_evaluations_" + kind)
+        detail = _history_detail(history, kind, value, event_nlev)
+        if detail.startswith("same-raw"):
+            ctx.count("callback_colliding_raw_" + detail[len("same-raw-seen-first-as-"):] + "_first")
+        elif detail != "no-related-earlier-telegram":
+            ctx.count("callback_" + detail.replace("-", "_"))
+        wit = {"patterns": texts, "listed_addresses": [list(x) for x in listed], "filter_levels": nlev,
+               "events(kind,value,notation_levels,outgoing)": [list(e) for e in events[: index + 1]], "event_index": index,
+               "order": order_name, "got": repr(got), "memoryless": repr(fresh), "reference": exp}
+        what = f"{kind} {value!r} in {NOTATION[event_nlev].name} notation (evaluation {index} of this Callback)"
+        if isinstance(fresh, bool) and got is not fresh:
+            kind_of = f"raises-{type(got).__name__}" if isinstance(got, BaseException) else ("false-positive" if got else "false-negative")
+            ctx.violation(f"callback-verdict-depends-on-earlier-evaluations-{detail}-{kind_of}", wit,
+                          f"Callback{texts}.is_within_filter for {what}: {got!r}, but a fresh Callback with the same filters says {fresh!r}")
+        elif exp is not None and got is not exp:
+            kind_of = f"raises-{type(got).__name__}" if isinstance(got, BaseException) else ("false-positive" if got else "false-negative")
+            ctx.violation(f"callback-is_within_filter-{kind_of}-{kind}-destination", wit,
+                          f"Callback{texts}.is_within_filter for {what}: {got!r}, the reference says {exp}")
+        elif exp is None:
+            ctx.count("callback_notation_mismatch_compared_with_memoryless_only" if isinstance(fresh, bool)
+                      else "callback_notation_mismatch_raises_not_judged")
+        else:
             ctx.count("callback_filter_checks")
-            continue
-        kind = f"raises-{type(got).__name__}" if isinstance(got, BaseException) else ("false-positive" if got else "false-negative")
-        ctx.violation(f"callback-is_within_filter-{kind}",
-                      {"patterns": [e[1] for e in entries], "address_raw": raw, "notation": NOTATION[nlev].name, "expected": exp, "got": repr(got)},
-                      f"Callback.is_within_filter with filters {[e[1] for e in entries]} on raw {raw}: got {got!r}, expected {exp}")
+            ctx.count("callback_expected_true" if exp else "callback_expected_false")
+        history.append((kind, value, event_nlev))
+    ctx.distinct(("callback", nlev, len(texts), len(listed), order_name, "".join(e[0][0] for e in events[:12])))
+
+
+def check_callback(ctx, entries, rng, sample=False):
+    """Stateful, typed check of TelegramQueue.Callback.is_within_filter (twin objects, forward and reversed order)."""
+    nlev = len(entries[0][0])
+    globs = [_clean_name(gen_glob(rng)) or "x*" for _ in range(rng.choice((0, 1, 1, 2)))]
+    texts = [e[1] for e in entries] + ["i-" + g for g in globs]
+    tables_list = [e[3] for e in entries]
+    listed = []
+    if rng.random() < 0.5:
+        listed.append(("GA", rng.randrange(1, 65536)))
+    if rng.random() < 0.25:
+        listed.append(("IGA", "listed"))
+    events = callback_events(rng, entries, globs, listed, nlev)
+    if sample:
+        ctx.sample({"callback_filters": texts, "listed": listed, "events": [list(e) for e in events[:10]], "events_total": len(events)})
+    run_callback_sequence(ctx, texts, tables_list, globs, listed, nlev, events, "forward")
+    run_callback_sequence(ctx, texts, tables_list, globs, listed, nlev, list(reversed(events)), "reversed")
+    GroupAddress.address_format = NOTATION[nlev]
+
+
+def replay_callback(ctx, witness):
+    """Re-execute the recorded evaluation sequence on one Callback object."""
+    texts = witness["patterns"]
+    listed = [tuple(x) for x in witness["listed_addresses"]]
+    events = [tuple(e) for e in witness["events(kind,value,notation_levels,outgoing)"]]
+    callback = _make_callback(texts, listed, True)
+    got = fresh = None
+    for kind, value, event_nlev, outgoing in events:
+        GroupAddress.address_format = NOTATION[event_nlev]
+        got = _ask(callback, kind, value, outgoing)
+        fresh = _ask(_make_callback(texts, listed, True), kind, value, outgoing)
+    ctx.ev()
+    ctx.distinct(("replay", 1))
+    ctx.distinct(("replay", 2))
+    print(f"replay: last of {len(events)} evaluations -> {got!r}; memoryless {fresh!r}; reference {witness['reference']!r}")
+    if isinstance(fresh, bool) and got is not fresh:
+        ctx.violation("replayed-callback-verdict-depends-on-earlier-evaluations", witness, f"{got!r} vs memoryless {fresh!r}")
+    elif witness["reference"] is not None and got is not witness["reference"]:
+        ctx.violation("replayed-callback-is_within_filter-disagreement", witness, f"{got!r} vs reference {witness['reference']!r}")
 
 
 # ---------------------------------------------------------------- internal globs
@@ -549,7 +691,10 @@ def run(ctx):
                 "interval end of every level (product or random combinations) + random; the first patterns of each shard (2 quick, 60 x 16 thorough) against all "
                 "65,536; distinct = (levels, item kinds per level, saw match, saw non-match) and glob shapes")
     ctx.require("match_calls", "expected_true", "expected_false", "patterns_1level", "patterns_2level", "patterns_3level",
-                "internal_match_calls", "internal_expected_true", "internal_expected_false", "callback_filter_checks", "cross_kind_checks")
+                "internal_match_calls", "internal_expected_true", "internal_expected_false", "callback_filter_checks", "cross_kind_checks",
+                "callback_expected_true", "callback_expected_false", "callback_evaluations_GA", "callback_evaluations_IA", "callback_evaluations_IGA",
+                "callback_colliding_raw_individual-address_first", "callback_colliding_raw_group-address_first",
+                "callback_same_destination_repeated", "callback_same_destination_seen_under_other_notation")
     # reference self test (hand-computed cases from the statement)
     t = ref_level_table([("range", 5, 3), ("from", 250)], 255)
     ok = [i for i in range(256) if t[i]] == [3, 4, 5, 250, 251, 252, 253, 254, 255]
@@ -580,7 +725,7 @@ def run(ctx):
                 by_level[nlev].append((struct, text, res[0], res[1]))
             bucket = by_level[nlev]
             if len(bucket) >= 3:
-                check_callback(ctx, bucket[: rng.randint(1, 3)], rng)
+                check_callback(ctx, bucket[: rng.randint(1, 3)], rng, sample=(i < 12))
                 del bucket[:]
         for i in range(n_internal):
             check_internal(ctx, rng, i)
@@ -591,8 +736,15 @@ def run(ctx):
 
 def replay(ctx, witness):
     """Re-evaluate exactly the recorded pattern/address pair."""
+    if "event_index" in witness:
+        saved = GroupAddress.address_format
+        try:
+            replay_callback(ctx, witness)
+        finally:
+            GroupAddress.address_format = saved
+        return
     if "glob" not in witness and "disagreement" not in witness:
-        run(ctx)   # history / callback witnesses: re-run the seeded workload
+        run(ctx)   # history witnesses: re-run the seeded workload
         return
     saved = GroupAddress.address_format
     try:
